@@ -319,14 +319,19 @@ impl CoreInner {
 		#[cfg(feature = "verif")]
 		crate::verif::point("flush.after_index");
 		// Step 3: Prepare atomic changeset
+		// WAL segments below `log_number` are released. That is normally everything
+		// up to the segment paired with this memtable - unless a batch logged in one
+		// of those segments lives in a younger, still unflushed memtable or has not
+		// reached a memtable yet (see `LsmCommitEnv::apply`).
+		let new_log_number = self.releasable_log_number(&memtable, wal_number + 1)?;
 		let mut changeset = ManifestChangeSet::default();
 		changeset.new_tables.push((0, Arc::clone(&table)));
-		changeset.log_number = Some(wal_number + 1);
+		changeset.log_number = Some(new_log_number);
 
 		log::debug!(
 			"Changeset prepared: table_id={}, log_number={} (WAL #{:020} flushed)",
 			table_id,
-			wal_number + 1,
+			new_log_number,
 			wal_number
 		);
 
@@ -368,6 +373,33 @@ impl CoreInner {
 		cleanup_vlog_and_index(&self.vlog, &self.versioned_index, min_oldest_vlog, "flush");
 
 		Ok(table)
+	}
+
+	/// Highest `log_number` that flushing `flushing` may establish: `upper`, lowered
+	/// to the oldest WAL segment that an in-flight batch or another unflushed
+	/// memtable still depends on.
+	fn releasable_log_number(&self, flushing: &Arc<MemTable>, upper: u64) -> Result<u64> {
+		// In-flight batches FIRST: a batch leaves the in-flight set only after the
+		// memtable that took it has been told about its segment.
+		let mut log_number = upper;
+		if let Some(segment) = self.wal.oldest_in_flight() {
+			log_number = log_number.min(segment);
+		}
+		{
+			let active = self.active_memtable.read()?;
+			if !Arc::ptr_eq(&active, flushing) {
+				log_number = log_number.min(active.oldest_logged_wal());
+			}
+		}
+		{
+			let immutables = self.immutable_memtables.read()?;
+			for entry in immutables.iter() {
+				if !Arc::ptr_eq(&entry.memtable, flushing) {
+					log_number = log_number.min(entry.memtable.oldest_logged_wal());
+				}
+			}
+		}
+		Ok(log_number)
 	}
 
 	/// Rotates the active memtable to the immutable queue WITHOUT flushing to SST.
@@ -491,7 +523,9 @@ impl CoreInner {
 		crate::verif::point("flush.before_wal_cleanup");
 		// Schedule async WAL cleanup
 		let wal_dir = self.wal.read().get_dir_path().to_path_buf();
-		let min_wal_to_keep = entry.wal_number + 1;
+		// Only what the manifest has released (may be less than this memtable's
+		// own segment, see `releasable_log_number`).
+		let min_wal_to_keep = self.level_manifest.read()?.get_log_number();
 
 		tokio::spawn(async move {
 			match cleanup_old_segments(&wal_dir, min_wal_to_keep) {
@@ -922,6 +956,41 @@ impl LsmCommitEnv {
 			task_manager: Some(task_manager),
 		})
 	}
+
+	fn add_to_active_memtable(&self, batch: &Batch) -> Result<()> {
+		let active_memtable = self.core.active_memtable.read()?;
+		active_memtable.add(batch)?;
+		if let Some(segment) = batch.wal_number {
+			active_memtable.note_logged_in(segment);
+		}
+		Ok(())
+	}
+
+	fn apply_to_memtable(&self, batch: &Batch) -> Result<()> {
+		// Try to add to current memtable
+		let result = self.add_to_active_memtable(batch);
+
+		match result {
+			Ok(()) => Ok(()),
+			Err(Error::ArenaFull) => {
+				// Arena is full - rotate memtable and retry
+				log::debug!("apply: arena full, rotating memtable");
+				#[cfg(feature = "verif")]
+				crate::verif::point("apply.arena_full");
+
+				self.core.rotate_memtable()?;
+
+				// Schedule background flush
+				if let Some(ref task_manager) = self.task_manager {
+					task_manager.wake_up_memtable();
+				}
+
+				// Retry on new memtable - must succeed
+				self.add_to_active_memtable(batch)
+			}
+			Err(e) => Err(e),
+		}
+	}
 }
 
 impl CommitEnv for LsmCommitEnv {
@@ -952,40 +1021,30 @@ impl CommitEnv for LsmCommitEnv {
 		if sync {
 			wal_guard.sync()?;
 		}
+		// Remember which segment holds this record and keep that segment from
+		// being released until the batch has reached a memtable (see `apply`).
+		let segment = wal_guard.get_active_log_number();
+		processed_batch.wal_number = Some(segment);
+		self.core.wal.in_flight_begin(segment);
 		drop(wal_guard);
 
 		Ok(processed_batch)
 	}
 
 	/// Apply batch to memtable with retry on arena full.
+	///
+	/// `apply` runs outside the commit lock, after the WAL write. By then the
+	/// memtable/WAL pair may have been rotated (by this batch hitting a full
+	/// arena, or by a concurrent committer), so the batch can land in a memtable
+	/// paired with a LATER segment than the one holding its record. The memtable
+	/// is told which segment it depends on, so that flushing the older memtable
+	/// does not release that segment (see `flush_immutable_to_sst`).
 	fn apply(&self, batch: &Batch) -> Result<()> {
-		// Try to add to current memtable
-		let result = {
-			let active_memtable = self.core.active_memtable.read()?;
-			active_memtable.add(batch)
-		};
-
-		match result {
-			Ok(()) => Ok(()),
-			Err(Error::ArenaFull) => {
-				// Arena is full - rotate memtable and retry
-				log::debug!("apply: arena full, rotating memtable");
-				#[cfg(feature = "verif")]
-				crate::verif::point("apply.arena_full");
-
-				self.core.rotate_memtable()?;
-
-				// Schedule background flush
-				if let Some(ref task_manager) = self.task_manager {
-					task_manager.wake_up_memtable();
-				}
-
-				// Retry on new memtable - must succeed
-				let active_memtable = self.core.active_memtable.read()?;
-				active_memtable.add(batch)
-			}
-			Err(e) => Err(e),
+		let result = self.apply_to_memtable(batch);
+		if let Some(segment) = batch.wal_number {
+			self.core.wal.in_flight_end(segment);
 		}
+		result
 	}
 
 	// Check for background errors before committing
